@@ -3,6 +3,7 @@ package props
 import (
 	"fmt"
 	"strconv"
+	"strings"
 	"sync"
 	"testing"
 	"time"
@@ -375,4 +376,76 @@ func c14DRun(c C14DCase, st *kit.Stats) error {
 
 func TestC14D(t *testing.T) {
 	kit.Check(t, kit.Prop[C14DCase]{ID: "C14D", Gen: c14DGen, Run: c14DRun})
+}
+
+// ---- part E: what a connection reports about itself follows its real selection -------------------------
+
+type C14ECase struct {
+	Selects []string `json:"selects"` // SELECT arguments, valid and invalid
+}
+
+func c14EGen(t *rapid.T) C14ECase {
+	var c C14ECase
+	for n := rapid.IntRange(1, 8).Draw(t, "n"); n > 0; n-- {
+		c.Selects = append(c.Selects, pick(t, "sel", "0", "1", "3", "15", "16", "99", "-1", "abc", "", "9223372036854775807", "7", "2"))
+	}
+	return c
+}
+
+func c14ERun(c C14ECase, st *kit.Stats) error {
+	emu := kit.StartEmu("")
+	defer emu.Stop()
+	conn, other := emu.Dial(), emu.Dial()
+	conn.Proto, other.Proto = 0, 0
+	idv, _ := conn.Do("CLIENT", "ID")
+	cur := 0
+	field := func(text, name string) string {
+		for _, f := range strings.Fields(text) {
+			if strings.HasPrefix(f, name+"=") {
+				return strings.TrimPrefix(f, name+"=")
+			}
+		}
+		return ""
+	}
+	for i, a := range c.Selects {
+		v, err := conn.Do("SELECT", a)
+		if err != nil {
+			return fmt.Errorf("SELECT %q: %v", a, err)
+		}
+		n, perr := strconv.Atoi(a)
+		valid := perr == nil && n >= 0 && n <= 15 && strconv.Itoa(n) == a
+		if valid != !v.IsErr() {
+			return fmt.Errorf("SELECT %q replied %s", a, v)
+		}
+		if valid {
+			cur = n
+		} else {
+			st.Class("select-rejected")
+		}
+		// the connection's own report, the report others get about it, and where its data goes
+		info, _ := conn.Do("CLIENT", "INFO")
+		if got := field(info.S, "db"); got != strconv.Itoa(cur) {
+			return fmt.Errorf("after SELECT %v (the last one %s) CLIENT INFO reports db=%s, the connection is in database %d", c.Selects[:i+1], map[bool]string{true: "accepted", false: "rejected"}[valid], got, cur)
+		}
+		list, _ := other.Do("CLIENT", "LIST")
+		for _, line := range strings.Split(list.S, "\n") {
+			if field(line, "id") == strconv.FormatInt(idv.I, 10) {
+				if got := field(line, "db"); got != strconv.Itoa(cur) {
+					return fmt.Errorf("after SELECT %v CLIENT LIST (asked by another connection) reports db=%s for the connection, which is in database %d", c.Selects[:i+1], got, cur)
+				}
+			}
+		}
+		marker := "marker-" + strconv.Itoa(i)
+		conn.Do("SET", marker, "1")
+		other.Do("SELECT", strconv.Itoa(cur))
+		if e, _ := other.Do("EXISTS", marker); !kit.Equal(e, kit.Int(1)) {
+			return fmt.Errorf("after SELECT %v a key written by the connection is not in database %d", c.Selects[:i+1], cur)
+		}
+	}
+	st.NonTrivial(fmt.Sprintf("%v", c.Selects), c)
+	return nil
+}
+
+func TestC14E(t *testing.T) {
+	kit.Check(t, kit.Prop[C14ECase]{ID: "C14E", Gen: c14EGen, Run: c14ERun})
 }
